@@ -60,6 +60,10 @@
   a key, recorded finding `pk-inline-vs-table-level`), and for RENAME COLUMN (a
   renamed record is no longer a plain `add` record: recorded region `rename-column`).  They are covered by correspondence (white-box state after every script, including the position maps,
   plus `invCheck` on the Go state) and by the executable predicate (dump → grammar → reference engine) on every case.
+  * `dump_on_reference_engine` — **the statement's own formulation**: the dump of the loaded script (what `StringUp` prints
+    against an empty history), executed by the reference engine from the empty schema, is well-formed at every step and
+    ends in the schema the reference engine builds from the script itself (MySQL reader model, element-safe vocabulary
+    without inline PRIMARY KEY; either field-order setting) — the whole-schema theorem of C01 with an empty old side.
 -/
 import SqlizeModel.Impl.Api
 import SqlizeModel.Spec.Scope
@@ -69,6 +73,7 @@ import SqlizeModel.Proofs.FidelityMain
 import SqlizeModel.Proofs.FidelityElems
 import SqlizeModel.Proofs.FidelityPk
 import SqlizeModel.Proofs.FidelityPg
+import SqlizeModel.Proofs.SchemaIgnoring
 
 namespace Sqlize.C05
 open Sqlize Sqlize.Spec
@@ -300,5 +305,20 @@ theorem reader_dispatch_as_modelled : Facts.readerEdits = expectedReaderEdits :=
 theorem parse_before_edit : ∀ p ∈ Facts.parseBeforeEdit, p.2 = true := by decide
 
 example : Facts.parseBeforeEdit.length = 3 := by decide
+
+open Sqlize.Spec in
+/-- **the statement's own formulation, "when printed back, describes exactly what an independent reading of the script
+    gives"** (MySQL reader model; scripts of any length over the element-safe vocabulary without inline PRIMARY KEY, no
+    table named "" or like the bookkeeping table): what the model prints for the loaded script against an empty history
+    — the dump — is accepted by the reference engine statement by statement from the empty schema and ends in a schema
+    `DB.equiv` to the one the reference engine builds from the script itself, for either setting of the field-order
+    option; and every printed statement creates something the script's schema has (`Spec.c01` with an empty old side).
+    This is the whole-schema theorem of C01 with nothing on the old side. -/
+theorem dump_on_reference_engine (g : Globals) (hg : g.dialect = .mysql) (rc : Bool) (ss : List Stmt) (db : DB)
+    (hs : ss.all Stmt.elemSafe = true) (hp : ss.all Stmt.plainOpts = true) (he : execAll rc [] ss = some db)
+    (hdef : ∀ tb ∈ db, tb.name ≠ Migration.defaultMigrationTable) :
+    ∃ dump, modelUp g [] ss = .ok dump ∧ c01 g.ignoreOrder [] db dump false = .ok () :=
+  schema_up_any g hg rc [] ss [] db rfl hs rfl hp rfl he (fun tb htb => hdef tb (by simpa using htb))
+    (fun a ha => (by cases ha))
 
 end Sqlize.C05
